@@ -17,7 +17,7 @@ POOL = ['\\begin{myv}$ {\\end{myv} \\a{z}', '$m$ {g} \\textbf a \\label b', '\\n
         '\\textbf{\\emph{x}', '{{{$x', '\\begin{e}{[{\\begin{f}x\\end{e}', '\\a{\\b[\\c{\\']
 SKIP = ('myv',)
 FORMS = ['str', 'list', 'tuple', 'gen', 'file', 'chars', 'lines']
-EDITS = ['string', 'rename', 'append', 'delete', 'args', 'mathname']
+EDITS = ['string', 'rename', 'append', 'delete', 'args', 'mathname', 'selfcopy']
 SEEDS = ['0', '1', '2', '3', '7', '11', '42', 'random']
 
 
@@ -105,6 +105,12 @@ def do_edit(soup, e):
             if isinstance(n.expr, TexEnv) and not isinstance(n.expr, (TexNamedEnv, TexGroup)):
                 n.name = 'renamed'
                 return
+    elif e == 'selfcopy':      # a copy of the first node appended to the same document, then the ORIGINAL is edited
+        if nodes:
+            soup.append(nodes[0].copy())
+            first = [n for n in soup.descendants if isinstance(n, TexNode)][0]
+            if isinstance(first.expr, (TexCmd, TexNamedEnv)):
+                first.args.append('[k]')
     elif e == 'reparse':
         pass
 
